@@ -113,11 +113,9 @@ CheckRoundtrip(i) ==
                     /\ IF r.out2 = r.out THEN TRUE ELSE Report(i, "rt-fixpoint", [fe |-> r.fe]) /\ FALSE
                     /\ IF Interleaved(p.stmts) \/ r.out = n THEN TRUE
                        \* known finding F08: a table's key spelled more than once is printed like the key that the
-                       \* table keeps (KeyImpl predicts the text of every key region); repeated dotted prefixes inside
-                       \* an inline table are recognised only as "same up to key spelling"
+                       \* table keeps (KeyImpl predicts the text of every key region, inside inline tables too)
                        ELSE IF HasRepeatedSegment(p.stmts) /\ SameUpToKeySpelling(n, ParseDocument(n), r.out, q)
-                               /\ ((\E x \in 1..Len(p.stmts) : p.stmts[x].kind = "kv" /\ InlineRepV(p.stmts[x].val))
-                                   \/ RegionsAsPredicted(n, ParseDocument(n), r.out, q))
+                               /\ RegionsAsPredicted(n, ParseDocument(n), r.out, q)
                             THEN Report(i, "rt-respelled", [fe |-> r.fe, expected |-> n]) /\ FALSE
                             ELSE Report(i, "rt-exact", [fe |-> r.fe, expected |-> n]) /\ FALSE
 
